@@ -1,5 +1,5 @@
 CONSTANTS
-  MaxLen = 4
+  MaxLen = 5
   LongLen = 6
   StartPerms = {0, 420, 511, 83, 2541}
   StringPerms = {420}
